@@ -98,6 +98,59 @@ def fcidump_section() -> str:
     )
 
 
+# ---------------------------------------------------------------------------------------------
+# POSCAR
+
+
+def _assigned(fn: ast.FunctionDef, name: str) -> str:
+    vals = [ast.unparse(n.value) for n in walk(fn) if isinstance(n, ast.Assign) and len(n.targets) == 1
+            and isinstance(n.targets[0], ast.Name) and n.targets[0].id == name]
+    if not vals:
+        raise LookupError(f"no assignment to {name} in {fn.name}")
+    return vals[-1]
+
+
+@section
+def poscar_section() -> str:
+    _, tree = _src("poscar")
+    _, ctree = _src("chgcar")
+    x = L0.extract("poscar")
+    ws = [f for fn, f in x.writes if fn == "dump_one"]
+    if len(ws) != 8:
+        raise LookupError(f"POSCAR: expected 8 prints in dump_one, found {len(ws)}")
+    title, scale, cell, elem, cnt, sel, direct, atom = ws
+    fx = next(f for f in cell if f[0] == "fix")
+    sym = next(f for f in elem if f[0] == "str")
+    ci = next(f for f in cnt if f[0] == "int")
+    lit = lambda fs: [f[1] for f in fs if f[0] == "lit" and f[1] != "\n"]  # noqa: E731
+    scale_lit = lit(scale)[0]
+    if "." not in scale_lit:
+        raise LookupError("POSCAR: scaling literal has no decimal point")
+    alits = lit(atom)
+    d = _func(tree, "dump_one")
+    h = _func(ctree, "_load_vasp_header")
+    letters = [[e.value for e in n.comparators[0].elts] for n in walk(h) if isinstance(n, ast.Compare) and isinstance(n.ops[0], ast.In)
+               and ast.unparse(n.left) == "line[0].lower()" and isinstance(n.comparators[0], ast.List)]
+    if len(letters) != 2:
+        raise LookupError(f"POSCAR reader: expected two `line[0].lower() in [...]`, found {letters}")
+    takes = [ast.unparse(n) for n in walk(h) if isinstance(n, ast.Subscript) and isinstance(n.slice, ast.Slice)
+             and ast.unparse(n.value) == "line.split()"]
+    aug = [ast.unparse(n.value) for n in walk(h) if isinstance(n, ast.AugAssign) and ast.unparse(n.target) == "cellvecs"]
+    dots = [ast.unparse(n.value) for n in walk(h) if isinstance(n, ast.Assign) and ast.unparse(n.targets[0]) == "atcoords"
+            and isinstance(n.value, ast.Call) and ast.unparse(n.value.func) == "np.dot"]
+    if len(takes) != 1 or len(aug) != 1 or len(dots) != 1:
+        raise LookupError(f"POSCAR reader: takes {takes}, aug {aug}, dots {dots}")
+    return (
+        f"def poscarL : PoscarW.Layout :=\n  ⟨{fx[3]}, {fx[4]}, {sym[2]}, {ci[2]}, {chars(scale_lit)}, {len(scale_lit.split('.')[1])}, "
+        f"{chars(lit(sel)[0])}, {chars(lit(direct)[0])}, {chars(alits[0])}, {chars(alits[-1])}, {chars(L0._default_title(title[0][1]))}⟩\n\n"
+        "def poscarSource : PoscarW.Source :=\n"
+        f"  {{ cellExpr := {chars(_assigned(d, 'r'))},\n    order := {chars(_assigned(d, 'uatnums'))},\n"
+        f"    gvecs := {chars(_assigned(d, 'gvecs'))},\n    rowExpr := {chars(_assigned(d, 'row'))},\n"
+        f"    indexes := {chars(_assigned(d, 'indexes'))},\n    selLetters := {strs(letters[0])},\n    cartLetters := {strs(letters[1])},\n"
+        f"    take := {chars(takes[0])},\n    cellIn := {chars(aug[0])},\n    directIn := {chars(dots[0])} }}\n"
+    )
+
+
 def build_gen() -> str:
     out = ["import Iodata.Gen.Layouts", "import Iodata.Model.Fmt.AllW", "namespace Iodata.Gen.LayoutsW", "open Iodata.Fmt", ""]
     for fn in SECTIONS:
